@@ -12,7 +12,7 @@ import (
 func init() {
 	register("C04", Meta{
 		Explanation: "Structural necessary conditions of 'an outgoing transfer is in exactly one place': (pool-writers) the only code that writes or deletes SendToExternalKey entries plays one of the roles pool-insert (burns first), batch-cancel (re-indexes a batch it deletes), genesis import, batch-build (stores the batch it moved the entry into) or refund (mints back); OutgoingTxKey has one writer which stamps the sequence; (batch-build) in the selection callback every element appended to the slice that becomes BatchTx.Transactions is deleted from the pool in the same activation with a key built from that same element's Id and Fee, nothing is deleted without being appended, and the batch is stored on every path after the iteration; (batch-cancel) every element of batch.Transactions is re-indexed and then exactly that batch's index is deleted; (batch-executed) the executed batch's index is deleted on every path after it was found; (refund-delete) the refund deletes the pool entry it refunds on every success path; (unique-id) LastSendToExternalIDKey has a single +1 increment function whose result becomes the entry's Id; (status-final) the one writer of TxStatusKey forces REFUNDED to stay REFUNDED; (key-agreement) every pool key is built from the Id and Fee of one and the same entry.",
-		NotDecided: []string{"absence of duplicates across cancel-during-batching histories beyond what the pairings imply", "ids after a genesis import (see C15)", "that the reported status follows the lifecycle in every history"},
+		NotDecided:  []string{"absence of duplicates across cancel-during-batching histories beyond what the pairings imply", "ids after a genesis import (see C15)", "that the reported status follows the lifecycle in every history"},
 		Assumptions: commonAssumptions,
 	}, checkC04)
 }
@@ -256,7 +256,6 @@ func checkC04(c *Ctx) {
 
 	c.R.Analysed["reachable_functions"] = len(reach)
 }
-
 
 // allocsOfType lists composite-literal / local allocations of the named struct type in fn (and its closures).
 func allocsOfType(fn *ssa.Function, typeName string) []*ssa.Alloc {
